@@ -81,4 +81,95 @@ Proof.
   destruct (H1 pre k) as [L1 E1]. rewrite E1.
   destruct (H2 (pre ++ raw (g1 k)) (k - size (g1 k))) as [L2 E2]. rewrite E2.
   rewrite size_app, raw_app. split; [lia|].
-Show. Abort.
+  rewrite Nat.sub_add_distr, !app_assoc. reflexivity.
+Qed.
+
+(* a stage that emits nothing *)
+Lemma skip_none pre k :
+  Some (pre ++ repeat fill k, length pre) =
+  Some ((pre ++ raw []) ++ repeat fill (k - size []), length (pre ++ raw [])).
+Proof. simpl. now rewrite app_nil_r, Nat.sub_0_r. Qed.
+
+(* a stage that emits one structure whose stored octets are l *)
+Lemma put_one pre k l a : raw_enc a = l -> ad_size a <= k ->
+  size [a] <= k /\
+  put l (pre ++ repeat fill k) (length pre) =
+    Some ((pre ++ raw [a]) ++ repeat fill (k - size [a]), length (pre ++ raw [a])).
+Proof.
+  intros E H. unfold size, raw; simpl. rewrite app_nil_r, Nat.add_0_r, E. split; [exact H|].
+  assert (length l = ad_size a) by (rewrite <- E; apply raw_enc_length).
+  rewrite put_fresh by lia. now rewrite H0.
+Qed.
+
+Lemma sat_appearance a : sat (w_appearance a) (g_appearance a).
+Proof.
+  intros pre k. unfold w_appearance, g_appearance. destruct a as [v|].
+  - rewrite room. destruct (4 <=? k) eqn:E.
+    + apply put_one; [reflexivity | simpl; lia].
+    + split; [apply Nat.le_0_l | apply skip_none].
+  - split; [apply Nat.le_0_l | apply skip_none].
+Qed.
+
+Lemma sat_name n : sat (w_name n) (g_name n).
+Proof.
+  intros pre k. unfold w_name, g_name. destruct n as [l|].
+  - rewrite room. destruct (k <=? 2) eqn:E; simpl orb.
+    + split; [apply Nat.le_0_l | apply skip_none].
+    + destruct (length l) as [|nl] eqn:EL.
+      * simpl. split; [apply Nat.le_0_l | apply skip_none].
+      * change (0 <? S nl) with true. change (S nl =? 0) with false. cbv iota.
+        set (m := Nat.min (S nl) (k - 2)).
+        assert (Hm : length (firstn m l) = m) by (rewrite firstn_length; lia).
+        apply put_one.
+        -- simpl. rewrite Hm. replace (m + 1) with (S m) by lia. reflexivity.
+        -- simpl. rewrite Hm. lia.
+  - split; [apply Nat.le_0_l | apply skip_none].
+Qed.
+
+Lemma enc16_length us : length (enc16 us) = 2 * length us.
+Proof. unfold enc16. induction us; simpl; [reflexivity | lia]. Qed.
+
+Lemma sat_uuid16 us : sat (w_uuid16 us) (g_uuid16 us).
+Proof.
+  intros pre k. unfold w_uuid16, g_uuid16. destruct us as [|u us'].
+  - rewrite Bool.orb_true_r. split; [apply Nat.le_0_l | apply skip_none].
+  - rewrite room. set (us := u :: us').
+    change (length us =? 0) with false. rewrite Bool.orb_false_r.
+    destruct (k <? 4) eqn:E.
+    + split; [apply Nat.le_0_l | apply skip_none].
+    + set (m := Nat.min ((k - 2) / 2) (length us)).
+      assert (Hm : length (enc16 (firstn m us)) = 2 * m) by (rewrite enc16_length, firstn_length; lia).
+      pose proof (Nat.mul_div_le (k - 2) 2).
+      apply put_one.
+      * simpl raw_enc. rewrite Hm. reflexivity.
+      * simpl ad_size. rewrite Hm. lia.
+Qed.
+
+Lemma concat16_length (us : list (list N)) :
+  Forall (fun u => length u = 16) us -> length (concat us) = 16 * length us.
+Proof.
+  induction 1 as [|u t Hu _ IH]; simpl; [reflexivity|]. rewrite app_length, Hu, IH. lia.
+Qed.
+
+Lemma Forall_firstn (A : Type) (P : A -> Prop) n (l : list A) : Forall P l -> Forall P (firstn n l).
+Proof.
+  intros H. revert n. induction H; intros [|n]; simpl; constructor; auto.
+Qed.
+
+Lemma each128_spec us : Forall (fun u => length u = 16) us -> forall pre k,
+  let j := Nat.min (k / 16) (length us) in
+  w_each128 us (pre ++ repeat fill k) (length pre) =
+    Some ((pre ++ concat (firstn j us)) ++ repeat fill (k - 16 * j), length (pre ++ concat (firstn j us))).
+Proof.
+  induction 1 as [|u t Hu Ht IH]; intros pre k; cbv zeta.
+  - simpl. rewrite Nat.min_0_r. simpl. now rewrite app_nil_r, Nat.sub_0_r.
+  - cbn [w_each128]. rewrite len_buf.
+    destruct (length pre + 16 <=? length pre + k) eqn:E.
+    + assert (16 <= k) by lia.
+      unfold seq. rewrite put_fresh by lia. rewrite Hu.
+      specialize (IH (pre ++ u) (k - 16)). cbv zeta in IH. rewrite IH.
+      assert (Hd : k / 16 = S ((k - 16) / 16)).
+      { pose proof (Nat.div_add (k - 16) 1 16 ltac:(lia)) as D.
+        replace (k - 16 + 1 * 16) with k in D by lia. lia. }
+      rewrite Hd. cbn [length]. rewrite <- Nat.succ_min_distr. cbn [firstn concat].
+ rewrite !app_assoc. Show. 
